@@ -4,7 +4,7 @@ from mapgen import *
 
 PROP = "C02"
 CONSTS = ["B64_CHARS", "B64", "prefix_source"]
-THEOREMS = {"SmVerif.Props.C02": []}
+THEOREMS = {"SmVerif.Props.C06": ["SmVerif.C06.c02_decode_eq_spec"], "SmVerif.Props.C04": ["SmVerif.C04.c04_sorted_new"]}
 TRUSTED = BASE_TRUST + ["model: decode_regular's token loop (decoder.rs); specification: lean/SmVerif/Model/V3Spec.lean (independent reading: all segments located and read with the standard VLQ reader, then accumulated)",
                         "serde_json / RawSourceMap deserialisation (JSON text to fields) is trusted and exercised"]
 ASSUMPTIONS = ["tokens sharing one generated position are compared as a multiset (the property only demands ordering by generated position)"]
